@@ -256,8 +256,18 @@ func runC14(c *an.Ctx) {
 					if ex, ok := v.(*ssa.Extract); ok && ex.Index == 0 {
 						base := strings.TrimSuffix(an.Expr(v), "#0")
 						var foreign []string
+						// the loop's own continuation test (i < len(list) of an index loop, the hidden index of a range
+						// loop) is not a condition on the step
+						loopGuard := map[string]bool{}
+						if hb := run.Block(); len(hb.Instrs) > 0 {
+							if hif, ok := hb.Instrs[len(hb.Instrs)-1].(*ssa.If); ok {
+								for _, a := range an.CondAtoms(hif.Cond, true) {
+									loopGuard[a.String()] = true
+								}
+							}
+						}
 						for _, a := range an.FactsAtBlock(from) {
-							if strings.HasPrefix(a.L, base+"#") || strings.Contains(a.L, "rangeindex") {
+							if strings.HasPrefix(a.L, base+"#") || strings.Contains(a.L, "rangeindex") || loopGuard[a.String()] {
 								continue
 							}
 							foreign = append(foreign, tempName.ReplaceAllString(a.String(), ""))
